@@ -82,6 +82,7 @@ Want(t) ==
     [] t = "fetus_branch"        -> T1(60, LAMBDA p : FetusBranch(PBranch(p)))
     [] t = "fetus_side"          -> T1(60, FetusSide)
     [] t = "fetus_direction"     -> T1(60, FetusDirection)
+    [] t \in {"fetus_where_day", "fetus_where_lunar", "fetus_where_late"} -> T1(60, LAMBDA p : 10 * FetusSide(p) + FetusDirection(p))
     [] t = "pengzu_stem"         -> T1(60, PStem)
     [] t = "pengzu_branch"       -> T1(60, PBranch)
     [] t = "pengzu_stem_char"    -> T1(10, LAMBDA s : 1)
@@ -126,7 +127,7 @@ KnownTables == {"stem_element", "stem_polarity", "stem_direction", "stem_joy", "
   "stem_combine", "stem_combine_element", "stem_terrain", "stem_ten_star", "branch_element", "branch_polarity", "branch_direction",
   "branch_hidden_main", "branch_hidden_middle", "branch_hidden_residual", "branch_hidden_list", "branch_zodiac", "branch_opposite", "branch_ominous",
   "branch_combine", "branch_combine_element", "branch_harm", "pillar_stem", "pillar_branch", "pillar_sound", "pillar_sound_element", "pillar_xun",
-  "pillar_xun_head", "pillar_void1", "pillar_void2", "pillar_void_count", "fetus_stem", "fetus_branch", "fetus_side", "fetus_direction", "pengzu_stem",
+  "pillar_xun_head", "pillar_void1", "pillar_void2", "pillar_void_count", "fetus_stem", "fetus_branch", "fetus_side", "fetus_direction", "fetus_where_day", "fetus_where_lunar", "fetus_where_late", "pengzu_stem",
   "pengzu_branch", "pengzu_stem_char", "pengzu_branch_char", "element_reinforce", "element_restrain", "element_reinforced", "element_restrained",
   "element_direction", "direction_element", "zodiac_sign", "fetus_month", "fetus_month_leap", "fetus_month_cycle", "mansion_luminary",
   "mansion_field_direction", "mansion_field", "mansion_zone", "mansion_beast", "mansion_zone_direction", "mansion_animal", "mansion_luck",
